@@ -47,7 +47,9 @@ func TestFaceScope(t *testing.T) {
 	defer w.Close()
 	w.Emit(map[string]any{"ev": "Reset", "cap": 8, "algo": "nametree", "supp": 1, "suppm": 1})
 	n, skipped := 0, 0
+	kinds := map[string]int{}
 	emit := func(kind, host string, loop bool, s defn.Scope) {
+		kinds[kind]++
 		w.Emit(map[string]any{"ev": "F", "kind": kind, "host": host, "loopback": loop, "scope": scopeStr(s)})
 		n++
 	}
@@ -58,7 +60,7 @@ func TestFaceScope(t *testing.T) {
 			for _, port := range []uint16{6363, 1, 65535} {
 				// outgoing TCP (the constructor does not connect)
 				if u := defn.MakeTCPFaceURI(ver, hst, port); u.IsCanonical() {
-					if tr, err := face.MakeUnicastTCPTransport(u, nil, face.PersistencyPersistent); err == nil {
+					if tr, err := face.MakeUnicastTCPTransport(u, nil, face.PersistencyPersistent); err == nil && tr != nil {
 						emit("tcp-out", hst, isLoopbackHost(u.Path()), tr.Scope())
 					} else {
 						skipped++
@@ -66,7 +68,7 @@ func TestFaceScope(t *testing.T) {
 				}
 				// outgoing UDP (connects a datagram socket: needs a route, which the sandbox has for loopback only)
 				if u := defn.MakeUDPFaceURI(ver, hst, port); u.IsCanonical() {
-					if tr, err := face.MakeUnicastUDPTransport(u, nil, face.PersistencyPersistent); err == nil {
+					if tr, err := face.MakeUnicastUDPTransport(u, nil, face.PersistencyPersistent); err == nil && tr != nil {
 						emit("udp-out", hst, isLoopbackHost(u.Path()), tr.Scope())
 						tr.Close()
 					} else {
@@ -94,7 +96,7 @@ func TestFaceScope(t *testing.T) {
 		c, err := ln.Accept()
 		if err == nil {
 			host, _, _ := net.SplitHostPort(c.RemoteAddr().String())
-			if tr, err := face.AcceptUnicastTCPTransport(c, nil, face.PersistencyOnDemand); err == nil {
+			if tr, err := face.AcceptUnicastTCPTransport(c, nil, face.PersistencyOnDemand); err == nil && tr != nil {
 				emit("tcp-accept", host, isLoopbackHost(host), tr.Scope())
 			} else {
 				skipped++
@@ -117,7 +119,7 @@ func TestFaceScope(t *testing.T) {
 			}
 		}()
 		if c, err := ln.Accept(); err == nil {
-			if tr, err := face.MakeUnixStreamTransport(defn.MakeFDFaceURI(9), defn.MakeUnixFaceURI(sock), c); err == nil {
+			if tr, err := face.MakeUnixStreamTransport(defn.MakeFDFaceURI(9), defn.MakeUnixFaceURI(sock), c); err == nil && tr != nil {
 				emit("unix", "", false, tr.Scope())
 			} else {
 				skipped++
@@ -128,5 +130,7 @@ func TestFaceScope(t *testing.T) {
 	}
 	// the internal (management) face
 	emit("internal", "", false, face.MakeInternalTransport().Scope())
+	// how many transports of each kind were classified (outgoing TCP needs no network at all: its count is a floor)
+	w.Emit(map[string]any{"ev": "F", "kind": "summary", "host": "", "loopback": false, "scope": "", "tcpOut": kinds["tcp-out"], "internal": kinds["internal"]})
 	writeMeta("fwd_scope.meta.json", map[string]any{"executions": 1, "events": n, "skipped": skipped})
 }
